@@ -75,6 +75,7 @@ def Cond.names : Cond → List Atom
   | .not c => Cond.names c
   | .cmpE _ e b _ => gexprNames e ++ b.names
   | .truthE e => gexprNames e
+  | .cmpR _ e _ _ => gexprNames e
 
 def SStmt.names : SStmt → List Atom
   | .flat s => s.names
@@ -130,6 +131,20 @@ def pureSpec (L : Layout) (σ : SrcSt) : RStmt → SrcSt
   | .binW s op a b => let p := wordered op a b; binWSpec L σ s op p.1 p.2
   | .opasgW s op a => binWSpec L σ s op (.wvar s) a
 
+/-- the plain reading of a condition: no state is threaded, `&&` / `||` read the same state -/
+def evalCondP (L : Layout) (m : SrcSt) : Cond → Bool
+  | .cmp op a b => op.eval (rval L m a) (rval L m b)
+  | .truth v => rval L m v.ra != 0
+  | .nottruth v => rval L m v.ra == 0
+  | .and a b => evalCondP L m a && evalCondP L m b
+  | .or a b => evalCondP L m a || evalCondP L m b
+  | .not c => !evalCondP L m c
+  | .cmpE op e b eLeft =>
+    if eLeft then op.eval (treeVal L m e) (val L m.mem m.x m.y b) else op.eval (val L m.mem m.x m.y b) (treeVal L m e)
+  | .truthE e => treeVal L m e != 0
+  | .cmpR op e y eLeft =>
+    if eLeft then op.eval (treeVal L m e) (if y then m.y else m.x) else op.eval (if y then m.y else m.x) (treeVal L m e)
+
 mutual
 def semPure (L : Layout) : Nat → SrcSt → SStmt → Option Out
   | 0, _, _ => none
@@ -138,16 +153,16 @@ def semPure (L : Layout) : Nat → SrcSt → SStmt → Option Out
   | _ + 1, m, .forget => some (.norm, m)
   | _ + 1, m, .brk => some (.brk, m)
   | _ + 1, m, .cont => some (.cont, m)
-  | _ + 1, m, .ifBrk c => some (if evalCond L m c then .brk else .norm, m)
-  | _ + 1, m, .ifCont c => some (if evalCond L m c then .cont else .norm, m)
+  | _ + 1, m, .ifBrk c => some (if evalCondP L m c then .brk else .norm, m)
+  | _ + 1, m, .ifCont c => some (if evalCondP L m c then .cont else .norm, m)
   | f + 1, m, .seq a b =>
     (match semPure L f m a with
      | some (.norm, m1) => semPure L f m1 b
      | r => r)
-  | f + 1, m, .ifThen c t => if evalCond L m c then semPure L f m t else some (.norm, m)
-  | f + 1, m, .ifElse c t e => if evalCond L m c then semPure L f m t else semPure L f m e
+  | f + 1, m, .ifThen c t => if evalCondP L m c then semPure L f m t else some (.norm, m)
+  | f + 1, m, .ifElse c t e => if evalCondP L m c then semPure L f m t else semPure L f m e
   | f + 1, m, .while c b =>
-    if evalCond L m c then
+    if evalCondP L m c then
       (match semPure L f m b with
        | none => none
        | some (.brk, m1) => some (.norm, m1)
@@ -157,13 +172,13 @@ def semPure (L : Layout) : Nat → SrcSt → SStmt → Option Out
     (match semPure L f m b with
      | none => none
      | some (.brk, m1) => some (.norm, m1)
-     | some (_, m1) => if evalCond L m1 c then semPure L f m1 (.doWhile b c) else some (.norm, m1))
+     | some (_, m1) => if evalCondP L m1 c then semPure L f m1 (.doWhile b c) else some (.norm, m1))
   | f + 1, m, .for i c u b => semPureFor L c u b f (pureSpec L m i)
 
 def semPureFor (L : Layout) (c : Cond) (u : RStmt) (b : SStmt) : Nat → SrcSt → Option Out
   | 0, _ => none
   | f + 1, m =>
-    if evalCond L m c then
+    if evalCondP L m c then
       (match semPure L f m b with
        | none => none
        | some (.brk, m1) => some (.norm, m1)
@@ -784,15 +799,16 @@ theorem rspec_pure (L : Layout) {σ τ : SrcSt} (h : EqOff L σ τ) (st : RStmt)
     exact binWSpec_eqOff L h s op (.wvar s) a ⟨hn.1, fun v hv => hs.2 v (by simp [WA.lo, Atom.names] at hv; simp [hv])⟩
       ⟨hn.1, fun v hv => hs.2 v (by simp [WA.hi, Atom.names] at hv; simp [hv])⟩ (NoTmp.right (NoTmp.left hn)) (NoTmp.right hn)
 
-/-- the value of a tree does not depend on the compiler's own cells -/
-theorem treeVal_eqOff (L : Layout) {σ τ : SrcSt} (h : EqOff L σ τ) (e : GExpr) (hn : NoTmp L (gexprNames e)) :
-    treeVal L σ e = treeVal L τ e := by
+/-- running a tree from a state that differs from the plain state only in the compiler's cells: the same value as in
+    the plain state, and again a state that differs from it only there -/
+theorem treeRun_eqOff (L : Layout) {σ τ : SrcSt} (h : EqOff L σ τ) (e : GExpr) (hn : NoTmp L (gexprNames e)) :
+    (treeRun L σ e).1 = treeVal L τ e ∧ EqOff L (treeRun L σ e).2 τ := by
   have hsh := evalE_shape L e σ τ 0 0 {}
-  unfold treeVal
+  unfold treeVal treeRun
   cases h1 : evalE L σ 0 {} e with
   | none =>
     cases h2 : evalE L τ 0 {} e with
-    | none => rfl
+    | none => exact ⟨rfl, h⟩
     | some y => rw [h1, h2] at hsh; simp at hsh
   | some x =>
     cases h2 : evalE L τ 0 {} e with
@@ -805,37 +821,83 @@ theorem treeVal_eqOff (L : Layout) {σ τ : SrcSt} (h : EqOff L σ τ) (e : GExp
       obtain ⟨ht, hs⟩ := hsh
       subst ht; subst hs
       cases t1 with
-      | atm x => rfl
-      | tmp => rfl
+      | atm x => exact ⟨rfl, h⟩
+      | tmp => exact ⟨rfl, h⟩
       | acc =>
-        obtain ⟨_, p1, _⟩ := evalE_pure L τ e σ 0 {} q1 .acc s1 h hn h1
+        obtain ⟨e1, p1, _⟩ := evalE_pure L τ e σ 0 {} q1 .acc s1 h hn h1
         obtain ⟨_, p2, _⟩ := evalE_pure L τ e τ 0 {} q2 .acc s1 (EqOff.refl L τ) hn h2
         obtain ⟨σ1, a1⟩ := q1
         obtain ⟨σ2, a2⟩ := q2
         simp only [leftVal] at p1 p2
         simp only
-        rw [p1, p2]
+        exact ⟨by rw [p1, p2], e1.trans h⟩
+
+theorem treeVal_eqOff (L : Layout) {σ τ : SrcSt} (h : EqOff L σ τ) (e : GExpr) (hn : NoTmp L (gexprNames e)) :
+    treeVal L σ e = treeVal L τ e := (treeRun_eqOff L h e hn).1
 
 theorem val_eqOff (L : Layout) {σ τ : SrcSt} (h : EqOff L σ τ) (b : Atom) (hn : NoTmp L b.names) :
     val L σ.mem σ.x σ.y b = val L τ.mem τ.x τ.y b := rval_eqOff L h (.of b) hn
 
-theorem evalCond_eqOff (L : Layout) {σ τ : SrcSt} (h : EqOff L σ τ) (c : Cond) (hn : NoTmp L c.names) :
-    evalCond L σ c = evalCond L τ c := by
+/-- the condition as the code evaluates it (state threaded through `&&` / `||`, scratch effects) against its plain
+    reading: the same truth value, and the state it leaves differs from the plain state only in the compiler's cells -/
+theorem condRun_eqOff (L : Layout) (τ : SrcSt) (c : Cond) : ∀ {σ : SrcSt}, EqOff L σ τ → NoTmp L c.names →
+    evalCond L σ c = evalCondP L τ c ∧ EqOff L (condEff L σ c) τ := by
   induction c with
   | cmp op a b =>
-    simp only [evalCond]
+    intro σ h hn
+    refine ⟨?_, h⟩
+    simp only [evalCond_cmp, evalCondP]
     rw [rval_eqOff L h a (NoTmp.left hn), rval_eqOff L h b (NoTmp.right hn)]
-  | truth v => simp only [evalCond]; rw [rval_eqOff L h v.ra (by rw [ra_names_lv]; exact hn)]
-  | nottruth v => simp only [evalCond]; rw [rval_eqOff L h v.ra (by rw [ra_names_lv]; exact hn)]
-  | and a b iha ihb => simp only [evalCond]; rw [iha (NoTmp.left hn), ihb (NoTmp.right hn)]
-  | or a b iha ihb => simp only [evalCond]; rw [iha (NoTmp.left hn), ihb (NoTmp.right hn)]
-  | not c ih => simp only [evalCond]; rw [ih hn]
+  | truth v =>
+    intro σ h hn
+    refine ⟨?_, h⟩
+    simp only [evalCond_truth, evalCondP]; rw [rval_eqOff L h v.ra (by rw [ra_names_lv]; exact hn)]
+  | nottruth v =>
+    intro σ h hn
+    refine ⟨?_, h⟩
+    simp only [evalCond_nottruth, evalCondP]; rw [rval_eqOff L h v.ra (by rw [ra_names_lv]; exact hn)]
+  | and a b iha ihb =>
+    intro σ h hn
+    obtain ⟨a1, a2⟩ := iha h (NoTmp.left hn)
+    obtain ⟨b1, b2⟩ := ihb a2 (NoTmp.right hn)
+    refine ⟨by simp only [evalCond_and, evalCondP]; rw [a1, b1], ?_⟩
+    rw [condEff_and]
+    split
+    · exact b2
+    · exact a2
+  | or a b iha ihb =>
+    intro σ h hn
+    obtain ⟨a1, a2⟩ := iha h (NoTmp.left hn)
+    obtain ⟨b1, b2⟩ := ihb a2 (NoTmp.right hn)
+    refine ⟨by simp only [evalCond_or, evalCondP]; rw [a1, b1], ?_⟩
+    rw [condEff_or]
+    split
+    · exact a2
+    · exact b2
+  | not c ih =>
+    intro σ h hn
+    obtain ⟨c1, c2⟩ := ih h hn
+    exact ⟨by simp only [evalCond_not, evalCondP]; rw [c1], by simpa using c2⟩
   | cmpE op e b eLeft =>
-    simp only [evalCond]
-    rw [treeVal_eqOff L h e (NoTmp.left hn), val_eqOff L h b (NoTmp.right hn)]
+    intro σ h hn
+    obtain ⟨t1, t2⟩ := treeRun_eqOff L h e (NoTmp.left hn)
+    refine ⟨?_, by simpa using t2⟩
+    simp only [evalCond_cmpE, evalCondP]
+    rw [t1, val_eqOff L t2 b (NoTmp.right hn)]
   | truthE e =>
-    simp only [evalCond]
-    rw [treeVal_eqOff L h e hn]
+    intro σ h hn
+    obtain ⟨t1, t2⟩ := treeRun_eqOff L h e hn
+    refine ⟨?_, by simpa using t2⟩
+    simp only [evalCond_truthE, evalCondP]
+    rw [t1]
+  | cmpR op e y eLeft =>
+    intro σ h hn
+    obtain ⟨t1, t2⟩ := treeRun_eqOff L h e hn
+    refine ⟨?_, ?_⟩
+    · simp only [evalCond_cmpR, evalCondP]
+      rw [t1, t2.1, t2.2.1]
+    · simp only [condEff_cmpR]
+      exact (setTmp_eqOff L _ _).trans t2
 
 /-- the two readings of an outcome: both undefined, or both defined, ending the same way and equal off the scratch cell -/
 def OutEq (L : Layout) : Option Out → Option Out → Prop
@@ -861,8 +923,8 @@ theorem sem_pure_both (L : Layout) : ∀ (f : Nat),
       | forget => simp only [sem, semPure]; exact ⟨rfl, h⟩
       | brk => simp only [sem, semPure]; exact ⟨rfl, h⟩
       | cont => simp only [sem, semPure]; exact ⟨rfl, h⟩
-      | ifBrk c => simp only [sem, semPure]; exact ⟨by rw [evalCond_eqOff L h c hn], h⟩
-      | ifCont c => simp only [sem, semPure]; exact ⟨by rw [evalCond_eqOff L h c hn], h⟩
+      | ifBrk c => simp only [sem, semPure]; exact ⟨by rw [(condRun_eqOff L τ c h hn).1], (condRun_eqOff L τ c h hn).2⟩
+      | ifCont c => simp only [sem, semPure]; exact ⟨by rw [(condRun_eqOff L τ c h hn).1], (condRun_eqOff L τ c h hn).2⟩
       | seq a b =>
         simp only [sem, semPure]
         have ha := ih1 σ τ a h (NoTmp.left hn)
@@ -887,22 +949,25 @@ theorem sem_pure_both (L : Layout) : ∀ (f : Nat),
             | cont => exact ⟨rfl, hm⟩
       | ifThen c t =>
         simp only [sem, semPure]
-        rw [evalCond_eqOff L h c (NoTmp.left hn)]
+        obtain ⟨hc1, hc2⟩ := condRun_eqOff L τ c h (NoTmp.left hn)
+        rw [hc1]
         split
-        · exact ih1 σ τ t h (NoTmp.right hn)
-        · exact ⟨rfl, h⟩
+        · exact ih1 _ τ t hc2 (NoTmp.right hn)
+        · exact ⟨rfl, hc2⟩
       | ifElse c t e =>
         simp only [sem, semPure]
-        rw [evalCond_eqOff L h c (NoTmp.left (NoTmp.left hn))]
+        obtain ⟨hc1, hc2⟩ := condRun_eqOff L τ c h (NoTmp.left (NoTmp.left hn))
+        rw [hc1]
         split
-        · exact ih1 σ τ t h (NoTmp.right (NoTmp.left hn))
-        · exact ih1 σ τ e h (NoTmp.right hn)
+        · exact ih1 _ τ t hc2 (NoTmp.right (NoTmp.left hn))
+        · exact ih1 _ τ e hc2 (NoTmp.right hn)
       | «while» c b =>
         simp only [sem, semPure]
-        rw [evalCond_eqOff L h c (NoTmp.left hn)]
+        obtain ⟨hc1, hc2⟩ := condRun_eqOff L τ c h (NoTmp.left hn)
+        rw [hc1]
         split
-        · have hb := ih1 σ τ b h (NoTmp.right hn)
-          cases h1 : sem L f σ b with
+        · have hb := ih1 _ τ b hc2 (NoTmp.right hn)
+          cases h1 : sem L f (condEff L σ c) b with
           | none =>
             cases h2 : semPure L f τ b with
             | none => simp [OutEq]
@@ -921,7 +986,7 @@ theorem sem_pure_both (L : Layout) : ∀ (f : Nat),
               | brk => exact ⟨rfl, hm⟩
               | norm => exact ih1 m1 m2 (.while c b) hm hn
               | cont => exact ih1 m1 m2 (.while c b) hm hn
-        · exact ⟨rfl, h⟩
+        · exact ⟨rfl, hc2⟩
       | doWhile b c =>
         simp only [sem, semPure]
         have hb := ih1 σ τ b h (NoTmp.left hn)
@@ -944,16 +1009,18 @@ theorem sem_pure_both (L : Layout) : ∀ (f : Nat),
             | brk => exact ⟨rfl, hm⟩
             | norm =>
               dsimp only
-              rw [evalCond_eqOff L hm c (NoTmp.right hn)]
+              obtain ⟨hc1, hc2⟩ := condRun_eqOff L m2 c hm (NoTmp.right hn)
+              rw [hc1]
               split
-              · exact ih1 m1 m2 (.doWhile b c) hm hn
-              · exact ⟨rfl, hm⟩
+              · exact ih1 _ m2 (.doWhile b c) hc2 hn
+              · exact ⟨rfl, hc2⟩
             | cont =>
               dsimp only
-              rw [evalCond_eqOff L hm c (NoTmp.right hn)]
+              obtain ⟨hc1, hc2⟩ := condRun_eqOff L m2 c hm (NoTmp.right hn)
+              rw [hc1]
               split
-              · exact ih1 m1 m2 (.doWhile b c) hm hn
-              · exact ⟨rfl, hm⟩
+              · exact ih1 _ m2 (.doWhile b c) hc2 hn
+              · exact ⟨rfl, hc2⟩
       | «for» i c u b =>
         simp only [sem, semPure]
         have hi : NoTmp L i.names := NoTmp.left (NoTmp.left (NoTmp.left hn))
@@ -963,10 +1030,11 @@ theorem sem_pure_both (L : Layout) : ∀ (f : Nat),
         exact ih2 c u b _ _ (rspec_pure L h i hi) hc hu hb
     · intro c u b σ τ h hc hu hb
       simp only [semFor, semPureFor]
-      rw [evalCond_eqOff L h c hc]
+      obtain ⟨hc1, hc2⟩ := condRun_eqOff L τ c h hc
+      rw [hc1]
       split
-      · have hbb := ih1 σ τ b h hb
-        cases h1 : sem L f σ b with
+      · have hbb := ih1 _ τ b hc2 hb
+        cases h1 : sem L f (condEff L σ c) b with
         | none =>
           cases h2 : semPure L f τ b with
           | none => simp [OutEq]
@@ -985,7 +1053,7 @@ theorem sem_pure_both (L : Layout) : ∀ (f : Nat),
             | brk => exact ⟨rfl, hm⟩
             | norm => exact ih2 c u b _ _ (rspec_pure L hm u hu) hc hu hb
             | cont => exact ih2 c u b _ _ (rspec_pure L hm u hu) hc hu hb
-      · exact ⟨rfl, h⟩
+      · exact ⟨rfl, hc2⟩
 
 theorem sem_pure (L : Layout) (f : Nat) (σ τ : SrcSt) (st : SStmt) (h : EqOff L σ τ) (hn : NoTmp L st.names) :
     OutEq L (sem L f σ st) (semPure L f τ st) := (sem_pure_both L f).1 σ τ st h hn
